@@ -37,6 +37,11 @@ type SessionOpts struct {
 	// is used.
 	Negotiated string
 	NoHeader   bool // do not feed/consume a stream header
+	// Layered: the ready-made negotiator first hands the library a plain
+	// io.ReadWriter wrapped around the Conn (as a compression-like feature
+	// would), so that the session runs over the library's own connection
+	// wrapper on top of a net.Conn
+	Layered bool
 }
 
 // Header returns the stream header the harness feeds as the peer for opts.
@@ -168,7 +173,12 @@ func ReadySession(rw io.ReadWriter, o SessionOpts) (*xmpp.Session, error) {
 	if o.WS {
 		ctx = context.WithValue(ctx, wskey.Key{}, struct{}{})
 	}
+	negCalls := 0
 	neg := func(ctx context.Context, in, out *stream.Info, s *xmpp.Session, data interface{}) (xmpp.SessionState, io.ReadWriter, interface{}, error) {
+		negCalls++
+		if c, ok := rw.(*Conn); ok && o.Layered && negCalls == 1 {
+			return 0, RW{C: c}, nil, nil
+		}
 		if !o.NoHeader {
 			rc := s.TokenReader()
 			tok, err := rc.Token()
